@@ -2,7 +2,7 @@
 # tools/mutcheck.sh <patch.diff> <PROP> [tier] : apply a seeded change to /repo, run the check, always revert
 P=$1; ID=$2; T=${3:-quick}
 git -C /repo status --porcelain | grep -q . && { echo "repo not clean"; exit 9; }
-git -C /repo apply "$P" || { echo "patch does not apply"; exit 8; }
+git -C /repo apply "$(realpath "$P")" || { echo "patch does not apply"; exit 8; }
 cd /verif && ./check $ID --tier $T --no-twins > /tmp/mutcheck_$ID.log 2>&1; rc=$?
 git -C /repo checkout -- . 
 grep -E "^VIOLATION|^INCONCLUSIVE|^KNOWN|^C[0-9]+ \[" /tmp/mutcheck_$ID.log | cut -c1-400 | head -12
